@@ -14,7 +14,12 @@ func main() {
 	r := ev.Start("C13")
 	e := &enum.E{R: r}
 	maxN := ev.Pick(r, 14, 40)
+	ns := []int{}
 	for n := 0; n <= maxN; n++ {
+		ns = append(ns, n)
+	}
+	ns = append(ns, 31, 32, 33, 63, 64, 65, 100, 127, 128, 129, 257) // large-size family
+	for _, n := range ns {
 		var s []int
 		if n > 0 {
 			s = make([]int, n)
@@ -23,7 +28,15 @@ func main() {
 			}
 		}
 		orig := append([]int{}, s...)
-		for size := 1; size <= maxN+2; size++ {
+		sizes := []int{}
+		if n <= maxN {
+			for size := 1; size <= maxN+2; size++ {
+				sizes = append(sizes, size)
+			}
+		} else {
+			sizes = []int{1, 2, 3, 7, 8, 15, 16, 17, 31, 32, 33, 64, n/2 - 1, n / 2, n/2 + 1, n - 1, n, n + 1, n + 2, 2 * n}
+		}
+		for _, size := range sizes {
 			rp := map[string]any{"n": n, "size": size}
 			e.Input(n%size >= 2 || size > n)
 			if n == 5 && size == 3 {
